@@ -290,7 +290,9 @@ def f3(tier, rnd) -> List[Desc]:
               M.struct('SLast', [M.scalar('a', 8), mk()]),
               M.packet('Host', [M.typedef('s', 'SSized'), M.scalar('t', 8)])]
         out.extend(both(Desc(f'f3_{kind}', _le(pk), 'F3')))
-    pk = [M.packet('Empty', []), M.packet('Blob', [M.payload()]), M.struct('SBlob', [M.array('v', width=16)])]
+    pk = [M.packet('Empty', []), M.packet('Blob', [M.payload()]), M.struct('SBlob', [M.array('v', width=16)]),
+          M.packet('OnlyReserved', [M.reserved(8)]),
+          M.packet('TrailingReserved', [M.size('x', 8), M.array('x', width=8), M.reserved(16)])]
     out.extend(both(Desc('f3_empty', _le(pk), 'F3', core=True)))
     pk = [M.packet('Mod2', [M.size('_payload_', 3), M.reserved(5), M.payload(2)]),
           M.packet('Mod1t', [M.size('_payload_', 8), M.payload(1), M.scalar('t', 8)])]
@@ -482,7 +484,8 @@ CORE_KINDS = {
     'f5_odd_widths': {'Opt24': ['c01', 'c04', 'c02', 'c03', 'c05'], 'Opt40p': ['c03'], 'OptEn24': ['c03', 'c05'],
                       'OptChild': ['c02'], 'Opt56t': ['c04']},
     'f4_tlv_field': {'Child': ['c02', 'c03']},
-    'f3_empty': {'Empty': ['c18d', 'c01'], 'Blob': ['c18d', 'c04'], 'SBlob': ['c18d']},
+    'f3_empty': {'Empty': ['c18d', 'c01'], 'Blob': ['c18d', 'c04'], 'SBlob': ['c18d'], 'OnlyReserved': ['c04'],
+                 'TrailingReserved': ['c04']},
     'f4_wide_constraint': {'Frame': ['c06s', 'c06t'], 'Ping': ['c06v', 'c03']},
     'f7_forward': {'Nest': ['c03']},
     'f7_custom16': {'C': ['c01'], 'C2': ['c03']},
